@@ -39,6 +39,9 @@ def check(A, only_decode=False, prefix='C02'):
         C01.decode_cases(A, m.const_value(m.module('packet'), 'MESSAGE'), prefix='C02')
         R.constructor_rules(A, 'C02')
         R.asgi_body_rule(A, 'C02')
+        from . import clirules as C_
+        for cf in C_.CFLAVOURS:
+            C_.write_loop_rules(A, cf, 'C02', bound_rule='C02')
 
 
 def _encode_part(A, m, enc):
@@ -168,6 +171,30 @@ def _decode_part(A, m, dec, prefix):
                 if okl and wi > last_app:
                     c = {'parts': parts_e}
                     lst = None
+            beh_f = 'a record of the body is skipped instead of being decoded (or refused): ' \
+                    'a reply made of separators only decodes to no packet at all and is taken ' \
+                    'for a valid empty answer'
+            if c is not None and isinstance(lst, ast.ListComp) and len(lst.generators) == 1 and \
+                    lst.generators[0].ifs:
+                A.violated(prefix + '.decode', 'every record of the body becomes a packet (no '
+                           'record is filtered out)', A.site(dec), key='decode-filtered',
+                           detail=['self.packets = %s' % txt(lst)], behaviour=beh_f)
+                continue
+            if c is not None:
+                fp = unawait(c['parts'])
+                inner = None
+                if isinstance(fp, (ast.ListComp, ast.GeneratorExp)) and len(fp.generators) == 1 \
+                        and fp.generators[0].ifs and \
+                        match('_s.split(_sep)', fp.generators[0].iter) is not None:
+                    inner = fp
+                elif isinstance(fp, ast.Call) and txt(fp.func) in ('filter', 'list') and \
+                        'filter(' in txt(fp) and ".split(" in txt(fp):
+                    inner = fp
+                if inner is not None:
+                    A.violated(prefix + '.decode', 'every record of the body becomes a packet '
+                               '(no record is filtered out)', A.site(dec), key='decode-filtered',
+                               detail=[txt(fp)], behaviour=beh_f)
+                    continue
             if c is None or (lst is not None and (
                     not isinstance(lst, ast.ListComp) or len(lst.generators) != 1 or
                     lst.generators[0].ifs)):
